@@ -9,6 +9,9 @@ this one makes no choice of idiom, so that combinations nobody thought of appear
   seq_num := seq_obj.Select(lambda o: num) | o.cvals() | seq_num.Where(lambda v: bool) | seq_num.Select(lambda v: num)
            | seq_obj.SelectMany(lambda o: seq_num) | pair_vec(num)
   column  := num | seq_num | seq_obj.Select(lambda o: seq_num)
+  int   := 0..3 | i | o.nTrk() | o.charge() | seq.Count() | (int + int)
+  seq_num |= Range(int, int + span) [.Select(lambda i: num) | .Where(lambda i: bool)]      span := 0..3 | seq.Count()
+  num   |= o.cvals()[int] | e.Coll(bank)[int].m() | o.subs()[int].m()          (indexing: a loud fault past the end)
 
 The environment knows which variables are in scope: the event `e` (inside an event lambda), objects, numbers.
 """
@@ -53,6 +56,10 @@ class G2:
             opts += [("getter", 8), ("intgetter", 2)]
         if d > 0:
             opts += [("arith", 3), ("abs", 1), ("fn", 1), ("ifexp", 2), ("let", 1)]
+            if env["objs"]:
+                opts += [("index_vec", 1)]
+            if env["e"] or env["objs"]:
+                opts += [("index_obj", 1)]
             if env["e"] or env["objs"]:
                 opts += [("agg", 4), ("count", 3), ("first_obj", 2), ("first_num", 1)]
         k = qgen.weighted_choice(r, opts)
@@ -68,6 +75,15 @@ class G2:
             m = r.choice(["nTrk", "charge"])
             self.declare(et, m)
             return f"{o}.{m}()"
+        if k == "index_vec":
+            o, et = r.choice(env["objs"])
+            m = r.choice(["cvals", "ivals"])
+            self.declare(et, m)
+            return f"{o}.{m}()[{self.integer(env, d - 1)}]"
+        if k == "index_obj":
+            # indexing works on a collection as fetched / returned, not on a derived sequence
+            s, et = self.seq_obj(env, 0)
+            return f"{s}[{self.integer(env, d - 1)}].{r.choice(qgen.DOUBLE_METHODS)}()"
         if k == "arith":
             return f"({self.num(env, d - 1)} {r.choice(['+', '-', '*'])} {self.num(env, d - 1)})"
         if k == "abs":
@@ -111,6 +127,41 @@ class G2:
             s, et = self.seq_obj(env, d - 1)
             return f"{s}.First().{r.choice(qgen.DOUBLE_METHODS)}()"
         return f"{self.seq_num(env, d - 1)}.First()"
+
+    def integer(self, env, d):
+        r = self.r
+        opts = [("iconst", 3)]
+        if env.get("ints"):
+            opts.append(("intvar", 5))
+        if env["objs"]:
+            opts.append(("intgetter", 4))
+        if d > 0:
+            opts.append(("iarith", 1))
+            if env["e"] or env["objs"]:
+                opts.append(("count", 3))
+        k = qgen.weighted_choice(r, opts)
+        if k == "iconst":
+            return r.choice(["0", "0", "1", "2", "3"])
+        if k == "intvar":
+            return r.choice(env["ints"])
+        if k == "intgetter":
+            o, et = r.choice(env["objs"])
+            m = r.choice(["nTrk", "charge"])
+            self.declare(et, m)
+            return f"{o}.{m}()"
+        if k == "iarith":
+            return f"({self.integer(env, d - 1)} + {self.integer(env, d - 1)})"
+        return f"{self.seq_obj(env, d - 1)[0]}.Count()"
+
+    def range_(self, env, d):
+        """Range(lo, lo + span): span is never negative (a negative length is undefined in the generated C++)"""
+        r = self.r
+        lo = self.integer(env, d)
+        if (env["e"] or env["objs"]) and d > 0 and r.random() < 0.35:
+            span = f"{self.seq_obj(env, 0)[0]}.Count()"
+        else:
+            span = r.choice(["0", "1", "2", "2", "3"])
+        return f"Range({lo}, {lo} + {span})" if lo != "0" or r.random() < 0.3 else f"Range(0, {span})"
 
     def boolean(self, env, d):
         r = self.r
@@ -192,10 +243,19 @@ class G2:
         if env["objs"]:
             opts.append(("member", 4))
         if not opts:
-            return f"pair_vec({self._pv(env)})"
+            return f"pair_vec({self._pv(env)})" if r.random() < 0.5 else self.range_(env, 0)
         if d > 0:
-            opts += [("where", 2), ("select_num", 2), ("selectmany", 1), ("pair_vec", 1)]
+            opts += [("where", 2), ("select_num", 2), ("selectmany", 1), ("pair_vec", 1), ("range", 2), ("range_select", 2), ("range_where", 1)]
         k = qgen.weighted_choice(r, opts)
+        if k == "range":
+            return self.range_(env, d - 1)
+        if k in ("range_select", "range_where"):
+            rg = self.range_(env, d - 1)
+            v = self.var("i")
+            env2 = dict(self.push_num(env, v), ints=env.get("ints", []) + [v])
+            if k == "range_select":
+                return f"{rg}.Select(lambda {v}: {self.num(env2, d - 1)})"
+            return f"{rg}.Where(lambda {v}: {self.boolean(env2, d - 1)})"
         if k == "select":
             s, et = self.seq_obj(env, d)
             v = self.var("sub" if ".subs()" in s else "o")
@@ -233,11 +293,11 @@ class G2:
 
     @staticmethod
     def push_obj(env, v, et):
-        return {"e": env["e"], "objs": env["objs"] + [(v, et)], "nums": env["nums"]}
+        return {"e": env["e"], "objs": env["objs"] + [(v, et)], "nums": env["nums"], "ints": env.get("ints", [])}
 
     @staticmethod
     def push_num(env, v):
-        return {"e": env["e"], "objs": env["objs"], "nums": env["nums"] + [v]}
+        return {"e": env["e"], "objs": env["objs"], "nums": env["nums"] + [v], "ints": env.get("ints", [])}
 
     def column(self, env, d):
         k = qgen.weighted_choice(self.r, [("num", 4), ("seq", 4), ("seq2", 2)])
